@@ -364,6 +364,19 @@ func compWS(o *out, seed uint64, tier string) {
 			emit(&wsCase{ops: ops, wf: false, rdconc: 1}, "option-edge-values")
 		}
 	}
+	// 2f. the legacy option toggled between the frames of one reused Writer (finding F29: the legacy
+	//     frame's 8 MiB block-size code used to stay in the descriptor of the next modern frame):
+	//     legacy then modern, modern then legacy then modern, with and without a configured block
+	//     size, through Write and ReadFrom, sequentially and concurrently; and toggled twice before
+	//     the first write
+	for _, pre := range []string{"bs=4", "bs=5", "bc=1,cc=1", "bs=6,bc=1"} {
+		for _, conc := range []int{1, 2} {
+			a := fmt.Sprintf("A:%s,conc=%d", pre, conc)
+			emit(&wsCase{ops: []string{a, "A:leg=1", "W:g:1,3,9000", "C", "R", "A:leg=0", "W:g:1,3,9000", "F", "W:h:68656c6c6f", "C"}, wf: false, rdconc: 1}, "legacy-toggle-between-frames")
+			emit(&wsCase{ops: []string{a, "W:g:3,9,3000", "C", "R", "A:leg=1", "RF:g:1,5,7000|0", "C", "R", "A:leg=0", "RF:g:1,5,70000|0", "C"}, wf: false, rdconc: 1}, "legacy-toggle-between-frames")
+			emit(&wsCase{ops: []string{a, "A:leg=1", "A:leg=0", "W:g:1,3,70000", "C", "R", "A:leg=1", "A:leg=0", "A:leg=1", "W:h:68656c6c6f", "C"}, wf: false, rdconc: 1}, "legacy-toggle-between-frames")
+		}
+	}
 	// 2e. ReadFrom (the io.Copy path) with a sink failing at every call, for good and once, modern
 	//     and legacy (no end mark: only the failing call itself can report), input not a multiple of
 	//     the block size so that the last block is written by ReadFrom's end-of-input branch
